@@ -1,5 +1,5 @@
 """C11 - path lookups resolve like step-by-step navigation (structural clauses)."""
-from .. import sym, cfg as _cfg, parsermodel as pm, failpaths as fp, report
+from .. import loops as _loops, sym, cfg as _cfg, parsermodel as pm, failpaths as fp, report
 from ..summaries import store_key
 
 EXPLANATION = (
@@ -76,6 +76,7 @@ def run(c, chk):
     for fname in RESOLVER_FAMILY:
         f = c.need(fname)
         bad = []
+        undecided = []
         for ins in f.instrs():
             if ins.op == 'store':
                 k = store_key(f, ins)
@@ -92,7 +93,30 @@ def run(c, chk):
             elif ins.op == 'call' and not ins.is_dbg():
                 n = ins.callee_name()
                 if n in ('free',) and not frees_own(f, ins):
-                    bad.append((ins, 'free'))
+                    undecided.append(ins)
+        helpers = [g for g in c.deep_funcs(f) if g is not f]
+        if (undecided or helpers) and not bad:
+            # what the shape of the instruction does not settle (a pointer kept in a stack slot, writes made by a
+            # helper through pointer arguments) is settled on the explored paths: the value freed must be a buffer
+            # obtained on that path, a store must land in a local, a fresh buffer, errno or the out-parameter
+            exr = sym.Explorer(c.modules, max_visits=2, mod_sets=c.mod_sets, max_paths=100000)
+            hn = set(g.name for g in helpers)
+            und = set(id(x) for x in undecided)
+            for p in exr.explore(f):
+                if p.end == 'cut':
+                    continue
+                for e in p.events:
+                    if e.kind == 'call' and e.name == 'free' and (id(e.ins) in und or e.fn in hn):
+                        a = e.args[0]
+                        if not (a == sym.C0 or (a[0] == 'call' and a[1] in ('strdup', 'strndup', 'malloc', 'calloc', 'parse_title'))):
+                            bad.append((e.ins, 'free'))
+                    elif e.kind == 'store' and e.fn in hn:
+                        r = sym.root_of(e.addr)
+                        if r[0] in ('alloca', 'call', 'errno') or e.addr in (('p', 'index'), ('p', 'len')):
+                            continue
+                        bad.append((e.ins, sym.render(e.addr)))
+                if bad:
+                    break
         if bad:
             ins, k = bad[0]
             chk.fail('R11.2', 'resolver-writes:%s:%s' % (fname, k), c.where(ins), '%s(), part of the path resolver, writes %s: a lookup can change the tree' % (fname, k))
@@ -104,18 +128,13 @@ def run(c, chk):
     nloops = 0
     for fname, cursor in (('cfg_getopt_secidx', 'name'), ('cfg_getopt_array', 'name'), ('parse_title', 'ch')):
         f = c.need(fname)
-        loops = _cfg.natural_loops(f)
         done = False
-        for h in loops:
-            names = {ph.res: f.var_names.get(ph.res) for ph in f.blocks[h].phis()}
-            if cursor not in names.values():
-                continue
+        for h in _loops.loops_over(f, cursor):
             done = True
             nloops += 1
-            env = {r: ('p', n or r) for r, n in names.items()}
             npaths = 0
             bad = None
-            for p in ex.explore(f, start=h, env=env, stop=[h]):
+            for p in _loops.iterate(ex, f, h):
                 if p.end != 'stop':
                     continue
                 npaths += 1
@@ -137,20 +156,13 @@ def run(c, chk):
 
     # ---- R11.5: qualifiers ------------------------------------------------------------------------
     chk.rule('R11.5', 'an index qualifier must be a whole numeral, and every step starts without an instance index (no carry-over between steps)')
-    loops = _cfg.natural_loops(sec)
-    hdr = None
-    for h in loops:
-        names = {ph.res: sec.var_names.get(ph.res) for ph in sec.blocks[h].phis()}
-        if 'name' in names.values():
-            hdr = h
-            hnames = names
-    if hdr is None:
+    hdrs = _loops.loops_over(sec, 'name')
+    if not hdrs:
         raise report.Broken('cfg_getopt_secidx(): step loop not found')
-    env = {r: ('p', n or r) for r, n in hnames.items()}
-    carried = [n for n in hnames.values() if n == 'i']
+    hdr = hdrs[-1]
     nq = 0
     badq = None
-    for p in ex.explore(sec, start=hdr, env=env, stop=[hdr]):
+    for p in _loops.iterate(ex, sec, hdr):
         if p.end == 'cut':
             continue
         # (a) strtol result used as the instance index only when the whole qualifier was consumed
